@@ -277,6 +277,13 @@ func body(s *simrt.Sim, tier string) {
 				if &orig[:1][0] != &b[:1][0] {
 					pool.Put(orig)
 				}
+				// callers hand a slice back the way they last used it: full, emptied (b[:0]) or cut short
+				switch s.Choose(4, "bsp.putlen") {
+				case 0:
+					b = b[:0]
+				case 1:
+					b = b[:len(b)/2]
+				}
 				pool.Put(b)
 			}
 		})
